@@ -260,6 +260,67 @@ func checkC03(c *Ctx, r *Report) {
 					ok, polarity = true, "stale is the comparison itself"
 				}
 			}
+			// one of the results of a look-up helper (entry, stale, err := c.lookup(key)): every return of the helper that
+			// hands an entry back computes that result as the comparison
+			viaHelperResult := func(v ssa.Value) bool {
+				ex, isEx := resolveVal(v).(*ssa.Extract)
+				if !isEx {
+					return false
+				}
+				hcall, isC := ex.Tuple.(*ssa.Call)
+				if !isC {
+					return false
+				}
+				h := helperBody(hcall)
+				if h == nil {
+					return false
+				}
+				n, all := 0, true
+				eachInstr(h, func(in ssa.Instruction) {
+					ret, isRet := in.(*ssa.Return)
+					if !isRet || isRecoverReturn(ret) {
+						return
+					}
+					vals := retVals(ret)
+					if ex.Index >= len(vals) {
+						all = false
+						return
+					}
+					if last := vals[len(vals)-1]; last.Type().String() == "error" && !isNilConst(last) {
+						return // a failing return: no entry, nothing to be stale
+					}
+					n++
+					rv := resolveVal(vals[ex.Index])
+					if rc, isCall := rv.(*ssa.Call); isCall {
+						if exp, known := expiredWhenTrueF(rc, "Expires"); known && exp {
+							return
+						}
+					}
+					all = false
+				})
+				return n > 0 && all
+			}
+			if viaHelperResult(sv) {
+				ok, polarity = true, "stale is the comparison itself, computed by the look-up helper"
+			}
+			if u, isU := sv.(*ssa.UnOp); isU && u.Op == token.MUL {
+				nSt, allSt := 0, true
+				for _, st := range storesTo(u.X) {
+					if b, isC := constBool(st.Val); isC && !b {
+						continue // the `false` that accompanies a failing return
+					}
+					if ld, isLd := st.Val.(*ssa.UnOp); isLd && ld.Op == token.MUL && ld.X == u.X {
+						continue // `return ..., stale, nil` with a named result: the cell is stored into itself
+					}
+					nSt++
+					if !viaHelperResult(st.Val) {
+						allSt = false
+					}
+				}
+				if nSt > 0 && allSt {
+					ok, polarity = true, "stale is the comparison itself, computed by the look-up helper"
+				}
+			}
 			sawTrue := false
 			allOK := len(sets) > 0
 			for _, s := range sets {
